@@ -24,6 +24,9 @@ def cases(tier):
         cs.append(dict(name=f"init_diag_{i}", fn="init_diag", args=dict(tier=tier), prefix=[i], weight=2))
         cs.append(dict(name=f"stack_{i}", fn="stack", args=dict(tier=tier), prefix=[i], weight=2))
         cs.append(dict(name=f"aggregate_{i}", fn="aggregate", args=dict(tier=tier), prefix=[i], weight=2))
+    extra = [x for x in [(2, 2), (2, 3)] if x not in S]
+    for j in range(len(extra)):
+        cs.append(dict(name=f"aggregate_2d_{j}", fn="aggregate", args=dict(tier=tier), prefix=[len(S) + j], weight=2))
     return cs
 
 
@@ -230,9 +233,14 @@ def case_stack(sp, tier):
 def case_aggregate(sp, tier):
     set_kernels()
     S = _S(tier)
-    s0 = S[choice(len(S), "shape_k0")]
+    S0 = list(S) + [x for x in [(2, 2), (2, 3)] if x not in S]  # genuinely two-dimensional keys, for the non-contiguous layouts below
+    s0 = S0[choice(len(S0), "shape_k0")]
     s1 = S[choice(len(S), "shape_k1")]
     k0, k1 = _sym("k0", s0), _sym("k1", s1)
+    # a key may have a non-contiguous memory layout (a transposed parameter): the gradient must still be laid out by the key's SHAPE
+    k0_t = len(s0) == 2 and choice(2, "k0_is_a_transposed_view") == 1
+    if k0_t:
+        k0 = _sym("k0", tuple(reversed(s0))).T
     hp = choice(2, "hash_order")
     k0._h, k1._h = hp, 1 - hp
     m = 1 + choice(3, "rows")
@@ -241,7 +249,7 @@ def case_aggregate(sp, tier):
     A = AStar()
     res = Aggregate(A, order)(Jacobians(jd))
     def cex(model=None):
-        return dict(kind="transform", which="aggregate", shapes=[list(s0), list(s1)], rows=m, order=[0 if t is k0 else 1 for t in order])
+        return dict(kind="transform", which="aggregate", shapes=[list(s0), list(s1)], rows=m, order=[0 if t is k0 else 1 for t in order], k0_transposed=bool(k0_t))
     if len(A.seen) != 1:
         return [Ob("aggregate_calls_aggregator_once", False, cex)]
     M = rows_of(A.seen[0])
